@@ -153,10 +153,13 @@ pub fn full_cfg(family: Family) -> ShapeCfg {
   }
 }
 
+/// placeholder in an output form: replaced by the mapping's own other trigger keys ("the chord keeps its modifiers")
+pub const OWN_MODS: KeyCode = KeyCode::UNKNOWN;
+
 pub fn output_menu(family: Family) -> Vec<Vec<KeyCode>> {
   use KeyCode::*;
   match family {
-    Family::Dist => vec![vec![X], vec![LEFTSHIFT, X], vec![LEFTCTRL, X], vec![], vec![LEFTMETA]],
+    Family::Dist => vec![vec![X], vec![LEFTSHIFT, X], vec![LEFTCTRL, X], vec![], vec![LEFTMETA], vec![LEFTCTRL, LEFTSHIFT, X], vec![OWN_MODS, X]],
     Family::Gen => vec![vec![], vec![X], vec![LEFTSHIFT, X], vec![A], vec![B], vec![LEFTSHIFT, A], vec![LEFTMETA], vec![LEFTSHIFT], vec![X, Y], vec![CAPSLOCK]],
   }
 }
@@ -197,14 +200,15 @@ pub fn tuple_layout(shapes: &[Shape], family: Family, k: usize, idx: usize) -> L
   for q in 0..k {
     let s = &shapes[j % shapes.len()];
     j /= shapes.len();
-    let mut to = s.to.clone();
+    let mut to: Vec<KeyCode> = vec![];
+    for k in &s.to { if *k == OWN_MODS { for f in &s.from[..s.from.len() - 1] { if !to.contains(f) { to.push(*f); } } } else if !to.contains(k) { to.push(*k); } }
     if family == Family::Dist {
       if let Some(l) = to.last_mut() { if *l == KeyCode::X { *l = DIST_KEYS[q]; } }
     }
     let repeat = match s.repeat {
       0 => Repeat::Normal,
       1 => Repeat::Disabled,
-      _ => Repeat::Special { keys: vec![KeyCode::F24], delay_ms: 100 + q as i32, interval_ms: 10 + q as i32 },
+      _ => Repeat::Special { keys: vec![KeyCode::F24, KeyCode::LEFTCTRL], delay_ms: 100 + q as i32, interval_ms: 10 + q as i32 }, // deliberately not in key-code order
     };
     ms.push(Mapping { from: s.from.clone(), to, repeat, absorbing: s.absorbing.clone() });
   }
